@@ -409,6 +409,19 @@ impl TwoValuedInterpretationsIterator {
     }
 }
 
+/// Verification hook (only compiled with `--cfg adf_obdd_verif`).
+#[cfg(adf_obdd_verif)]
+impl Adf {
+    /// The textual dump (`to_string`) of every acceptance condition, in statement order.
+    pub fn verif_ac_dumps(&self) -> Vec<String> {
+        self.ac.iter().map(|b| b.to_string()).collect()
+    }
+    /// The textual dumps of the acceptance conditions after biodivine-side grounding.
+    pub fn verif_grounded_dumps(&self) -> Vec<String> {
+        self.grounded_internal(&self.ac).iter().map(|b| b.to_string()).collect()
+    }
+}
+
 #[cfg(test)]
 mod test {
     use super::*;
